@@ -54,8 +54,16 @@ func GetSession(sid string) (*Session, bool) {
 		return nil, false
 	}
 
+	// An expired session is refused (and dropped), never revived
+	remaining := time.Until(sess.ExpiresAt)
+	if remaining <= 0 {
+		slog.Debug("Session has expired", "session_id", sid, "expires_at", sess.ExpiresAt)
+		sessionStore.Delete(sid)
+		return nil, false
+	}
+
 	// Extend session expiration if close to expiring
-	if time.Until(sess.ExpiresAt) <= extendThreshold {
+	if remaining <= extendThreshold {
 		slog.Debug("Session close to expiring, extending expiration", "session_id", sid, "expires_at", sess.ExpiresAt)
 		sess.ExpiresAt = time.Now().Add(defaultLifetime)
 		sessionStore.Set(sid, sess)
